@@ -73,8 +73,104 @@ def make_shape(prop, ename, variant, kinds, optmask, copt, horizon=False, extra=
     return Shape(name, build, obligations)
 
 
-def shapes(tier):
+# ---- a declared rule keeps holding whatever else is declared next to it (class-generic, twin builds) --------------
+def _resource_rule(cname):
+    import processscheduler.resource_constraint as rc
+    return hasattr(rc, cname) and cname not in ("ForceApplyNOptionalConstraints",)
+
+
+def monotone_shape(prop, x, y, role):
+    """The small problem of C18's sweep with rule X, and the same problem with X plus a second element Y in a given
+    role (declared plainly, negated, as one alternative of an Or, implied by a free condition): every schedule of
+    the second is a schedule of the first - declaring Y never loosens X nor any base rule of the problem."""
+    name = f"next_to_another_element/{x}/{role}_{y}"
+
+    def declare(with_y):
+        from checks import c01, c10, c18
+        pb = ps.SchedulingProblem(name="mono", horizon=12)
+        e = c18._env()
+        c10._make_instance(x, e, "rule_x")
+        if with_y:
+            c01.ROLES[role](lambda nm: c10._make_instance(y, e, "y_" + nm))
+        return pb
+
+    def build(P):
+        pb0 = declare(False)
+        s0 = ps.SchedulingSolver(problem=pb0)
+        s0.initialize()
+        phi_x = list(s0._solver.assertions())
+        pb1 = declare(True)
+        return Ctx(problem=pb1, phi_x=phi_x)
+
+    def obligations(ctx):
+        from symx import formula
+        from checks.common import buffer_witness
+        c1, _ = formula.constants(ctx.phi_x)
+        c2, _ = formula.constants(ctx.phi)
+        shared = [c for n, c in c2.items() if n in c1 and "_maybe_busy_" not in n]
+        return [Ob(f"{prop}/{name}/nothing_admitted_that_the_rule_alone_rejects", "complete", valid=And(buffer_witness(list(ctx.phi))), observables=shared,
+                   phi=list(ctx.phi_x), transform=buffer_witness, twin=buffer_witness(list(ctx.phi)), extra={"vacuous_ok": True, "lost_in": "x_alone"},
+                   replayer="checks.c03:replay_monotone", timeout_ms=120000)]
+
+    sh = Shape(name, build, obligations)
+    sh.grid = False
+    sh.declare = declare
+    from symx.harness import crash_obligations
+    sh.on_exception = crash_obligations(prop, name, "symx.harness:replay_build_crash", "a well-formed problem cannot be built and initialised")
+    return sh
+
+
+def replay_monotone(desc):
+    import symx.harness as H
+    from symx import engine, formula
+    from symx.harness import quiet
+
+    shape = H.get_shape(desc["module"], desc["shape"])
+    w = desc["witness"]
+    res = {}
+    for with_y in (False, True):
+        with quiet():
+            pb = shape.declare(with_y)
+            probe = ps.SchedulingSolver(problem=pb)
+            probe.initialize()
+            consts, _ = formula.constants(list(probe._solver.assertions()))
+            k = 0
+            for n, v in (w.get("pins") or {}).items():
+                if "!" in n or n not in consts or "_maybe_busy_" in n or n.startswith(("Selected_", "constraint_", "Indicator_", "task_group_")):
+                    continue
+                if not isinstance(v, (bool, int)) or not (z3.is_int(consts[n]) or z3.is_bool(consts[n])) or z3.is_bool(consts[n]) != isinstance(v, bool):
+                    continue
+                ps.ConstraintFromExpression(name=f"__pin_{k}", expression=(consts[n] == (z3.BoolVal(v) if isinstance(v, bool) else v)))
+                k += 1
+            res[with_y] = bool(ps.SchedulingSolver(problem=pb).solve())
+        engine.reset_z3_globals()
+    print(f"replay: pinned schedule: with the rule alone -> {res[False]}; with the second element declared too -> {res[True]}")
+    if res[True] and not res[False]:
+        print("CONFIRMED: declaring a second element admits a schedule that the rule alone rejects")
+        return 1
+    return 0
+
+
+def monotone_shapes(prop, tier, resource_rules):
+    from checks import c01, c05
+    classes = [c for c in c05._constraint_classes() if c != "ForceApplyNOptionalConstraints"]
+    xs = [c for c in classes if _resource_rule(c) == resource_rules]
     out = []
+    roles = list(c01.ROLES)
+    for i, x in enumerate(xs):
+        if tier == "thorough":
+            for y in classes:
+                for role in roles:
+                    out.append(monotone_shape(prop, x, y, role))
+        else:
+            for k, role in enumerate(roles):
+                out.append(monotone_shape(prop, x, classes[(classes.index(x) + 3 + 5 * k) % len(classes)], role))
+    return out
+
+
+
+def shapes(tier):
+    out = monotone_shapes(PROP, tier, resource_rules=False)
     for ename, el in ELEMENTS.items():
         pats = KIND_PATTERNS[el.ntasks]
         if tier == "quick":
